@@ -97,6 +97,72 @@ theorem C23_mempool_snapshot_partial (live : PoolCkpt) :
     (snapshot live).height = live.height ∧ (snapshot live).txnList = [] := by
   simp [snapshot, deserializeInto]
 
+/-! ## wallet coin checkpoint -/
+
+open ElaVerif.CheckpointDriver ElaVerif.WireSchemas in
+/-- The coin schema selects the output layout by the coin's own version byte exactly as
+    `Output.Deserialize(r, txVersion)` does: the old layout below `TxVersion09`, type byte and output
+    payload from 9 on — for every value of the byte. -/
+theorem C23_wallet_coin_version (v : Nat) (bs : Bytes) :
+    (match decodeCases coinCases v bs with | some x => x | none => decodeA (output true) bs) =
+      decodeA (output (decide (9 ≤ v))) bs := by
+  by_cases h : 9 ≤ v
+  · have h0 : ∀ k, k < 9 → (k = v) = False := fun k hk => by simp; omega
+    simp [coinCases, decodeCases, h, h0]
+  · have : v = 0 ∨ v = 1 ∨ v = 2 ∨ v = 3 ∨ v = 4 ∨ v = 5 ∨ v = 6 ∨ v = 7 ∨ v = 8 := by omega
+    rcases this with h | h | h | h | h | h | h | h | h <;> subst h <;> simp [coinCases, decodeCases]
+
+open ElaVerif.CheckpointDriver ElaVerif.WireSchemas in
+/-- Tie of the hand-written coin layout to the source: at every version 0…10 the regenerated reader
+    AND writer streams of `wallet.Coin` (guards evaluated at that version) are the tokens of
+    `[version byte, output as of that version, height]`; all guard constants are below 10, so
+    (`tokens_const`) the streams above 10 are those at 10. -/
+theorem C23_gen_wallet_coin :
+    (match findStream Gen.C23.walletParts "wallet.Coin" with
+     | some s =>
+       guardsBelow 10 s.de && guardsBelow 10 s.ser &&
+       allVersions.all (fun v =>
+         let want := erase (toks (.struct [.fixed 1, output (decide (9 ≤ v)), .fixed 4]))
+         decide (erase (flat v (s.de.length + 1) s.de) = want) &&
+         decide (erase (flat v (s.ser.length + 1) s.ser) = want))
+     | none => false) = true := by decide +kernel
+
+open ElaVerif.CheckpointDriver in
+/-- The checkpoint's own stream is `height, 32-bit count, { OutPoint, <the wallet.Coin stream> }, owned
+    coins` on both sides — the outer shape of `walletTy`. -/
+theorem C23_gen_wallet_outer :
+    (match findStream Gen.C23.streams "wallet.CoinsCheckPoint", findStream Gen.C23.walletParts "wallet.Coin" with
+     | some s, some c =>
+       decide (s.de = [.raw 4, .raw 4, .loop, .raw 32, .raw 2] ++ c.de ++ [.close, .dyn "ownedcoins"]) &&
+       decide (s.ser = [.raw 4, .raw 4, .loop, .raw 32, .raw 2] ++ c.ser ++ [.close, .dyn "ownedcoins"])
+     | _, _ => false) = true := by decide +kernel
+
+open ElaVerif.CheckpointDriver in
+/-- The owned-coins map: the reader's stream has a fully decodable derived schema (32-bit count of
+    { owner string, OutPoint, prev OutPoint, next OutPoint }); the writer writes the same fields — its two
+    `nil` branches (a nil link is written as the zero OutPoint) each write one OutPoint. -/
+theorem C23_gen_wallet_owned :
+    (match findStream Gen.C23.walletParts "wallet.OwnedCoins" with
+     | some s =>
+       !hasFail (ofToks s.de) &&
+       decide (s.de = [.raw 4, .loop, .vb 16777216, .raw 32, .raw 2, .raw 32, .raw 2, .raw 32, .raw 2, .close]) &&
+       decide (s.ser = [.raw 4, .loop, .vb 0, .raw 32, .raw 2,
+                        .other "if cl.prev == nil", .raw 32, .raw 2, .raw 32, .raw 2,
+                        .other "if cl.next == nil", .raw 32, .raw 2, .raw 32, .raw 2, .close])
+     | none => false) = true := by decide +kernel
+
+open ElaVerif.CheckpointDriver in
+/-- the wallet checkpoint schema is allocation-bounded (nothing is pre-sized by a count read from the
+    file), so the C02 allocation bound applies to it; its only rejecting layout is the unknown output type -/
+theorem C23_wallet_schema : bounded walletTy = true ∧ hasFail ownedCoinsTy = false := by
+  constructor <;> decide +kernel
+
+open ElaVerif.CheckpointDriver in
+/-- instance of the round trip for the wallet checkpoint -/
+theorem C23_wallet_roundtrip (v : Val) (rest : Bytes) (h : wf walletTy v = true) :
+    decode walletTy (encode walletTy v ++ rest) = some (v, rest) :=
+  decode_encode walletTy v rest h
+
 /-! ## regenerated facts -/
 
 /-- no checkpoint reader sizes a slice or a map by a count read from the file (regenerated list of the
